@@ -8,6 +8,42 @@ props = [json.loads(l) for l in open(os.path.join(ROOT, "properties.jsonl"))]
 NA = json.load(open(os.path.join(ROOT, "not_applicable.json")))
 PY = "/venv/bin/python"
 READY = set(json.load(open(os.path.join(ROOT, "ready.json"))))
+TECH = {
+ "C01": "def-use kind tracking (str component -> int) + sibling comparison of the two gather firing branches + CFG paths of scatter/gather",
+ "C02": "CFG dominance (add-before-product), def-use of the product operands, union-discrimination taint analysis over Combinator subclasses",
+ "C03": "suspension-freedom (no await) of put/replay, whole-program who-may-write of queues/token_list, path enumeration with guard folding for boundary rules",
+ "C04": "CFG must-pass-through of terminate() on every exit of every run(), handler tables, loop-exit analysis, finite-domain folding of status reduction",
+ "C05": "sibling comparison of the six tag-keyed firing loops (same port mapping read and compared, pop on every path)",
+ "C06": "def-use int-discipline of iteration order, CFG placement of the emission test, counter increment-before-use",
+ "C07": "def-use origin of every port.put argument (must come from _persist_token), who-may-call add_provenance, CFG dominance save -> add_provenance",
+ "C08": "class-table key-set agreement between _save_additional_params and _load along the super() chain, constructor coverage, type dispatch",
+ "C09": "SQL-literal tokenisation + getter/updater pairing, whole-program call-site key shape, ownership of cache objects, deep-copy post-processing",
+ "C10": "guarded-by (lexical lock scope + caller fixed point), CFG dominance of check-before-reserve across lock release points, finite-domain folding of the occupancy predicate",
+ "C11": "who-may-call + finite-domain tabulation (Status x Status) of the release guard, def-use origin of the released amount",
+ "C12": "CFG must-pass-through of notify_all() inside the lock scope, waiting-loop structure (re-test after wake-up, busy-loop cycle search)",
+ "C13": "def-use order-preservation classifier over every BindingFilter.get_targets, ordered task creation, truth-table folding of MatchingRule.eval",
+ "C14": "sibling comparison of Hardware/Storage operators (field-wise operator duality), CFG folding of satisfies() over relation tables, normal-form access whitelist",
+ "C15": "CFG dominance order schedule -> mkdir -> register -> put(JobToken), coverage of locations x directories, freshness of random_name",
+ "C16": "decorator table (@recoverable on every phase), handler table of the wrapper through the exception hierarchy, CFG dominance chain of _recover",
+ "C17": "who-may-write RecoveryRequest.version, CFG tabulation of the retry guard, must-pass-through of _synchronize_workflows, no-normal-exit of DummyFailureManager.recover",
+ "C18": "CFG reachability of producer expansion only after an unavailable test, return discipline of is_available, graph-mapper exclusion sets",
+ "C19": "lock-order (sorted acquisition), lock scope vs executor.run, suspension-freedom of request creation, finite-domain status set",
+ "C20": "mirrored-update pairing over successor/predecessor maps, whole-program encapsulation, pruning guards",
+ "C21": "parallel-map pairing (locations/valid_paths), INVALID filter, scoped recursion, CFG dominance of available.wait() before source selection",
+ "C22": "P9 shell-fragment quoting analysis over transfer commands, read_only forwarding, availability typestate (set() on all normal paths)",
+ "C23": "short-read accounting (def-use of len(result)), byte-budget loop termination, size validation before acceptance, block/record framing",
+ "C24": "P9 shell-fragment quoting analysis over every RemoteStreamFlowPath command, operation/flag table, delegation completeness",
+ "C25": "P9 quoting of the three renderers, CFG must-pass-through of close() on failure edges after the write, fallback reachability after submission, marker framing",
+ "C26": "suspension-freedom between claim test and claim, CFG must-pass-through of Event.set() on normal and failure edges, sibling idiom of FutureConnector methods",
+ "C27": "CFG dominance order submit -> register -> clear cache -> poll -> return, sibling caches, who-may-write of the job maps, single unwrap of locations",
+ "C28": "resolver choice (propagate vs get), nearest-ancestor overwrite, must-pass-through of the cycle check in the constructor, visited-set loop",
+ "C30": "finite-domain folding of the escape guard, def-use of the escaped list into the CommandToken, P9 quoting of environment hand-over",
+ "C31": "generated-parser class table for accessor safety, Optional-result dereference, handler exhaustiveness table, scope push/pop pairing",
+ "C32": "codec symmetry counting (unquote/quote applications along reaching definitions), recursion coverage of File/Directory fields",
+ "C33": "def-use int-discipline of compare_tags, return-shape analysis (antisymmetric by construction), who-constructs job names",
+ "C34": "def-use of graph keys (@id of the stored object), pairing of File entities with files_map entries, archive loop over files_map",
+}
+
 checks, claimed = [], set()
 for p in props:
     pid = p["id"]
@@ -32,12 +68,12 @@ for p in props:
                     "Static analysis of /repo's current source (ast, statement-level CFG with exception edges, def-use, "
                     "class table / call resolution): decides the structural clauses " + rules + " of this property, each a "
                     "necessary condition of the behaviour, for every execution at once; it does not prove the behavioural "
-                    "statement. " + (mod.__doc__ or "").strip().split("\n\n")[0].replace("\n", " ")
+                    "statement. Clauses: " + " ".join((mod.__doc__ or "").split())[:1800]
                 ),
                 "design_ref": f"DESIGN.md section 3, {pid}",
             },
             "level_note": "Undecided: " + meta.get("undecided", "the behavioural statement itself") + ". Trusted: Python ast, sfverif CFG/def-use/resolver (engine self-check + per-rule breaking/benign source variants), library semantics (asyncio single-threaded, shlex.quote, cachebox, SQLite). Plugin classes outside /repo are not analysed.",
-            "technique": meta.get("technique", "static analysis: repository-specific AST/CFG/def-use rules (" + rules + ")"),
+            "technique": "static analysis (no execution, no solver): " + TECH.get(pid, "repository-specific AST/CFG/def-use rules (" + rules + ")"),
         }
     )
 na = [x for x in NA if x["property_id"] not in claimed]
